@@ -74,3 +74,41 @@ C01 = dict(
 )
 
 FAMILIES = {"C01": C01, "C02": C02}
+
+
+# ----------------------------------------------------------------- C04
+def _store_case(world, c, i):
+    pre = [[r[0], r[1], r[2]] for r in c["pre"]]
+    return dict(id=i, nu=3, hist=[["from", pre], [c["op"], c["arg"]]])
+
+
+def _mutate_store(ev):
+    if ev.get("ev") != "EsOp" or ev["res"][0] != "ok" or not ev.get("post"):
+        return None
+    ev = json.loads(json.dumps(ev))
+    row = ev["post"][0]
+    # drop one ancestor, or invent one
+    if row[3]:
+        row[3] = row[3][1:]
+    else:
+        row[3] = [row[0] % 3 + 1]
+    return ev
+
+
+C04 = dict(
+    family="store", trace_module="Trace_EntityStore.tla",
+    models=[dict(name="mc_store", module="MC_EntityStore.tla", cfg=dict(quick="MC_EntityStore_3.cfg", thorough="MC_EntityStore_3.cfg"),
+                 cases=_store_case, limit=dict(quick=9000, thorough=None))],
+    drive_n=dict(quick=1200, thorough=40000),
+    nontrivial=lambda ev: ev.get("ev") == "EsOp",
+    key=lambda ev: [ev.get("pre"), ev.get("op"), ev.get("arg")],
+    mutate=_mutate_store, chunk=1500,
+    rule="G: every (reachable store over 3 uids, operation, argument) transition of EntityStore.tla with single-entry batches and all "
+         "remove subsets (TLC-enumerated; quick replays a seeded sample of 9000, thorough all), pre-state built with from_entities; "
+         "T: random histories of 2-9 from/add/upsert/remove/fromEnforce steps over 3-8 uids with batches of 1-4 (duplicates, dangling "
+         "parents, cycles, diamonds). After every step: direct parents, ancestors() listing, is_ancestor_of for all pairs, `b in a` "
+         "for all pairs through the evaluator and through a policy scope via the authorizer. distinct by (pre-state, op, argument).",
+    assumptions=["harness projection of Entities (parents(), ancestors(), attribute v) is faithful",
+                 "duplicate detection modelled as implemented (cedar's deep_eq on closed ancestor sets); the property does not constrain it"],
+)
+FAMILIES["C04"] = C04
